@@ -616,8 +616,10 @@ impl FdlActiveStation {
         let pending_bytes = phy.poll_pending_received_bytes(now);
         if pending_bytes > self.pending_bytes {
             self.mark_bus_activity(now);
-            self.pending_bytes = pending_bytes;
         }
+        // Also track when the receive buffer shrinks (e.g. after the PHY discarded undecodable
+        // data).  Otherwise the stale count hides the first bytes of the next telegram.
+        self.pending_bytes = pending_bytes;
     }
 
     /// Mark receival of a telegram.
